@@ -29,6 +29,9 @@ def scenario(sseed, kind, allfail=False, empty=False):
         over = {}
         if kind == "hyperband":
             over = dict(max_epochs=R.randint(1, 12), factor=R.randint(2, 4), iterations=R.randint(1, 2))
+        if specs and R.random() < 0.3:
+            # "tune a subset": the space is given up front and what build functions declare later is not tuned
+            over.update(tune_new_entries=False, allow_new_entries=True)
         o = gen.make_oracle(R, kind, specs, d, **over)
         last_sample = {}
         real_rv = o._random_values
